@@ -6,9 +6,9 @@
    code), the point limit of the remote-write decoder (1000 in the code) and the request's X-Ttl-Days value
    are universally quantified; bodies are arbitrary lists (any number of streams and entries, including
    streams without entries, any label bytes). *)
-From Coq Require Import List ZArith NArith Bool String Lia.
+From Coq Require Import List ZArith NArith Bool Ascii String Lia.
 From Coq Require Permutation.
-From Qryn Require Import gen.DecodeConsts model.Decode proofs.DecodeProofs.
+From Qryn Require Import gen.DecodeConsts model.Decode proofs.DecodeProofs model.LokiLabels proofs.LokiLabelsProofs.
 Import ListNotations.
 Open Scope Z_scope.
 
@@ -156,6 +156,53 @@ Theorem timestamp_scaling_exact :
 Proof. intros. now apply wrap64_id. Qed.
 Print Assumptions timestamp_scaling_exact.
 
+(* ---------------------------------------------------------------- Loki label strings (parseLabelsLokiFormat, model/LokiLabels.v)
+   unicode.IsLetter / unicode.IsDigit on runes outside ASCII are universally quantified (uletter, udigit). *)
+
+(* A label list written in the Loki text syntax -- names [a-zA-Z_][a-zA-Z0-9_]*, every value between double quotes with each
+   byte written in any of the forms raw ASCII / raw well-formed UTF-8 sequence / \a \b \f \n \r \t \v \\ and the escaped quote / \xHH (so ANY byte
+   string can be a value), pairs separated by a comma and any white space -- is read back as exactly that list, appended to
+   the labels already in the buffer, whatever text follows the closing brace. No label is dropped, split or merged. *)
+Theorem label_string_roundtrip :
+  forall (uletter udigit : string -> bool) blank (ls : list (string * list qel)) rest buf,
+  all_bytes is_ws blank = true -> ls <> [] -> forallb pair_ok ls = true ->
+  parse_labels uletter udigit (print_labels blank ls ++ rest) buf = Some (buf ++ labels_written ls).
+Proof. exact parse_print_roundtrip_l. Qed.
+Print Assumptions label_string_roundtrip.
+
+(* ... hence two label lists with the same text are the same list: a stream can not be taken for another one *)
+Theorem label_strings_distinguish_label_lists :
+  forall (uletter udigit : string -> bool) blank1 blank2 ls1 ls2,
+  all_bytes is_ws blank1 = true -> all_bytes is_ws blank2 = true -> ls1 <> [] -> ls2 <> [] ->
+  forallb pair_ok ls1 = true -> forallb pair_ok ls2 = true ->
+  print_labels blank1 ls1 = print_labels blank2 ls2 -> labels_written ls1 = labels_written ls2.
+Proof. exact written_texts_distinguish_l. Qed.
+Print Assumptions label_strings_distinguish_label_lists.
+
+(* whatever text is accepted (well-formed or not), the labels already in the buffer stay in front, untouched, and at least
+   one label is added (the JSON decoder parses a "labels" member into the buffer filled by earlier members) *)
+Theorem label_string_only_appends :
+  forall (uletter udigit : string -> bool) text buf out,
+  parse_labels uletter udigit text buf = Some out -> exists new, out = buf ++ new /\ new <> [].
+Proof. exact parse_labels_extends. Qed.
+Print Assumptions label_string_only_appends.
+
+(* the Loki protobuf push with its label sets as TEXT (as on the wire): when every stream's text is a written label list,
+   the texts are accepted, and the rows are one row per entry with the fingerprint of the sanitised written labels *)
+Theorem decode_faithful_loki_protobuf_text :
+  forall (uletter udigit : string -> bool) fp enc_len CS cache_add cache0 threshold flush_limit ctx_ttl blank
+         (ws : list (list (string * list qel) * list lentry)),
+  all_bytes is_ws blank = true -> forallb wstream_ok ws = true ->
+  let streams := map (fun s => LS (labels_written (fst s)) (snd s)) ws in
+  pb_streams_of_texts uletter udigit (map (fun s => (print_labels blank (fst s), snd s)) ws) = Some streams /\
+  exists cs, decode fp enc_len CS cache_add cache0 threshold flush_limit ctx_ttl (BLokiPb streams) = Done cs /\
+             Forall chunk_rect cs /\ rows_of cs = rows_spec fp ctx_ttl (entries_loki_pb streams).
+Proof.
+  intros. split; [now apply pb_texts_read_back|].
+  exact (decode_faithful_all fp enc_len CS cache_add cache0 threshold flush_limit ctx_ttl (BLokiPb streams)).
+Qed.
+Print Assumptions decode_faithful_loki_protobuf_text.
+
 (* the hypotheses above are met by non-trivial values; the model computes *)
 Example onentries_hypothesis_met :
   Forall call_wf [K [("app", "a")]%string [1; 2] [""; "x"]%string [0; 0]%N [1; 1]%N; K [] [] [] [] []].
@@ -179,4 +226,20 @@ Example chunkings_differ_rows_agree :
   let d := fun th => decode fp (fun _ => 0) unit miss_cache tt th 1000%N 0%N b in
   (match d 0, d 1000000000 with Done c1, Done c2 => (List.length c1, List.length c2) | _, _ => (0, 0)%nat end) = (3, 1)%nat /\
   result_rows (d 0) = result_rows (d 1000000000) /\ List.length (result_rows (d 0)) = 3%nat.
+Proof. vm_compute. repeat split. Qed.
+
+(* a written label list with every escape form, a multi-byte rune, a byte that is not UTF-8 and an empty value *)
+Example label_string_hypotheses_met :
+  let ls := [("app", [QByte "a"%char; QSimple "n"%char; QHex 255%N; QRune "é"; QSimple """"%char; QByte "}"%char]); ("__name__", []); ("x_9", [QRune "名"; QHex 0%N])]%string in
+  forallb pair_ok ls = true /\ all_bytes is_ws (String (Ascii.ascii_of_N 32) (String (Ascii.ascii_of_N 10) EmptyString)) = true /\
+  wstream_ok (ls, [LE 1 (Some "x"%string) None]) = true /\
+  parse_labels (fun _ => false) (fun _ => false) (print_labels " " ls ++ " trailing")%string [("pre", "1")]%string
+  = Some ([("pre", "1")]%string ++ labels_written ls) /\
+  List.length (labels_written ls) = 3%nat.
+Proof. vm_compute. repeat split. Qed.
+(* texts that must not be (and are not) accepted *)
+Example malformed_label_strings_rejected :
+  let p := fun t => parse_labels (fun _ => false) (fun _ => false) t [] in
+  p "{}"%string = None /\ p "{a=""b"",}"%string = None /\ p "{a=""b"" c=""d""}"%string = None /\ p "{a=`b`}"%string = None /\
+  p "{a=""b"%string = None /\ p "{1a=""b""}"%string = None /\ p "{a=""\q""}"%string = None /\ p "a=""b""}"%string = None /\ p "{a=""b"";c=""d""}"%string = None.
 Proof. vm_compute. repeat split. Qed.
